@@ -450,6 +450,10 @@ def execute_once(problem, probe, info, run, T, pname):
         obs["status"] = "rejected"
         obs["reason"] = "description: handle_multiobjective is False"
         return obs
+    if pname == "biobj" and algo == "MultiStart":
+        obs["status"] = "rejected"
+        obs["reason"] = "harness: the sub-algorithm of the case record (SLSQP) is mono-objective"
+        return obs
     db = problem.database
     keys0 = _keys(db)
     mark = len(probe.calls)
@@ -494,7 +498,19 @@ def execute_once(problem, probe, info, run, T, pname):
         tb = traceback.extract_tb(exc.__traceback__)
         obs["exc_where"] = f"{tb[-1].filename.split('/src/')[-1]}:{tb[-1].name}" if tb else ""
         obs["exc_frames"] = [f"{fr.filename.split('/src/')[-1]}:{fr.name}" for fr in tb[-6:]]
-        if isinstance(exc, ValueError) and ("is not adapted to the problem" in msg or "not suitable for mono-objective" in msg):
+        # raised by a listener of the database that is not a function of the problem (progress bar, stop testers, stale
+        # listeners of an earlier execution): the frame below Database.__notify_listeners is not an evaluation
+        names = [fr.name for fr in tb]
+        obs["exc_in_listener"] = any(
+            nm.endswith("__notify_listeners") and j + 1 < len(tb) and tb[j + 1].name not in ("evaluate", "__call__")
+            for j, nm in enumerate(names)
+        ) and not _chain_has(exc, probe.raised)
+        if isinstance(exc, ValueError) and msg.startswith("Multi-start optimization: "):
+            # MultiStart's own consistency error between max_iter, n_start and opt_algo_max_iter (raised by _run, after
+            # the evaluation of the starting point)
+            obs["status"] = "settings-rejected"
+            obs["reason"] = "ValueError: " + msg[:100]
+        elif isinstance(exc, ValueError) and ("is not adapted to the problem" in msg or "not suitable for mono-objective" in msg):
             # the library's (or, for a composite, its sub-algorithm's) own suitability error; the optimization
             # libraries raise some of them after the evaluation of the starting point
             obs["status"] = "rejected"
@@ -576,13 +592,16 @@ def _non_default(run):
     return {k: v for k, v in st.items() if DEFAULTS.get(k) != v}
 
 
-def judge(obs, run, pname, info, history="single"):
+def judge(obs, run, pname, info, history="single", first=None):
     """Return the list of (signature, message) broken by one execution (empty when the statement holds)."""
     bad = []
     kind, algo, n, st = run["kind"], run["algo"], run["N"], run["settings"]
     fam = family(kind, algo)
     # algorithm for the optimizers (each wraps different code), library class for the DOEs (they share one loop)
     shape = {"family": fam, "algorithm": algo if kind == "opt" else library_of(kind, algo), "problem_class": PROBLEM_CLASS[pname], "history": history, **_non_default(run)}
+    if first is not None:
+        shape["after"] = first["algo"] if first["kind"] == "opt" else library_of("doe", first["algo"])
+        shape.update({f"after_{k_}": v_ for k_, v_ in _non_default(first).items()})
 
     def v(inv, msg, **extra):
         sig = {"invariant": inv, **shape, **extra}
@@ -646,8 +665,9 @@ def judge(obs, run, pname, info, history="single"):
             building = any(fr.split(":")[-1] in RESULT_FRAMES for fr in frames)
             if obs.get("exc_type") == "KeyError" and any("from_optimization_problem" in fr for fr in frames):
                 v("result-keyerror-no-usable-objective", f"the driver raised instead of returning a result: {exc}; frames {frames[-4:]}", where=where)
-            elif obs.get("exc_has_termination") or building:
-                # R1: a termination criterion escaped, or the result could not be built / delivered after the run
+            elif obs.get("exc_has_termination") or building or obs.get("exc_in_listener"):
+                # R1: a termination criterion escaped, the result could not be built / delivered after the run, or the
+                # new-iteration / store listener protocol that enforces the stops raised by itself
                 v("exception-escaped", f"{exc}; frames {frames[-4:]}", exc_type=obs.get("exc_type"), where=where)
             else:
                 # an error of the wrapped library unrelated to a stop: outside the statement, listed in the coverage notes
@@ -784,7 +804,7 @@ def run_history(case):
             out.append((run, obs, []))
             break
         observe_raise(obs, probe)
-        bad = judge(obs, run, pname, info, history="single" if i == 0 else history)
+        bad = judge(obs, run, pname, info, history="single" if i == 0 else history, first=runs[0] if i else None)
         out.append((run, obs, bad))
         if obs.get("exception"):
             break
